@@ -73,7 +73,8 @@ func init() {
 	}
 	// Mount.tla: mount.FS over several mem.FS
 	modules["mount"] = func(kind string, o *Opts) engine.Adapter {
-		cfg := fsad.MConfig{PropRoute: o.attr("route", "C06"), Seed: o.Seed, Repeat: 8}
+		// mountmem: mount.FS over mem.FS instances; mountfault: the same, and every Rename re-run with each primitive call failing
+		cfg := fsad.MConfig{PropRoute: o.attr("route", "C06"), Seed: o.Seed, Repeat: 8, Faults: kind == "mountfault", PropFault: o.attr("fault", "INFO")}
 		cfg.Config = fsad.Config{AdapterName: kind, PropState: o.attr("state", "C06"), PropErr: o.attr("err", "C05"), PropWF: o.attr("wf", "C03"),
 			PropList: o.attr("list", "C16"), Names: o.Names, Depth: o.Depth}
 		return &fsad.MAdapter{Cfg: cfg}
